@@ -288,6 +288,8 @@ def oracle(case, impl):
                     resc = np.asarray(lo) + 0.5 * (ba + 1.0) * (np.asarray(hi) - np.asarray(lo))
                     if not np.allclose(resc, np.asarray(s["action"]), rtol=1e-5, atol=1e-5):
                         probs.append(("oracle-env-action", f"{where}: rescaled stored action {resc.tolist()} != action the env received {s['action']}"))
+                    if st["noise"] is None and not np.allclose(np.asarray(st["u"][e]), np.asarray(s["action"]), rtol=1e-5, atol=1e-5):
+                        probs.append(("oracle-env-action-not-policy-action", f"{where}: no action noise, the policy chose {st['u'][e]} but the env received {s['action']}"))
                     if np.any(np.asarray(s["action"]) < np.asarray(lo) - 1e-5) or np.any(np.asarray(s["action"]) > np.asarray(hi) + 1e-5):
                         probs.append(("oracle-env-action-out-of-bounds", f"{where}: env received {s['action']} outside [{lo},{hi}]"))
                 elif [float(x) for x in ad["action"][e]] != [float(x) for x in s["action"]]:
